@@ -198,3 +198,111 @@ Proof.
     + exists (dy_min vals). split; [exact Hinm|]. fold vmin. cbn [andb] in Hfail. lia.
     + exists (dy_max vals). split; [exact HinM|]. fold vmax. lia.
 Qed.
+
+(* only n_frac given (and every element is a multiple of 2^-n_frac): the fraction length is kept and the word is the least one
+   that holds every exact code with a non-negative integer length (below the cap) *)
+Theorem best_sizes_given_frac (signed : bool) wmax vals w f nfr :
+  let sign := if signed then 1 else 0 in
+  vals <> [] -> Forall (fun v => - de v <= 198) vals -> 0 <= nfr -> Forall (fun v => is_mult v nfr) vals ->
+  best_sizes signed None (Some nfr) wmax vals = Ok (w, f) -> w < wmax ->
+  f = nfr /\ f <= w - sign /\
+  Forall (fun v => - 2^(w - sign) <= scaled_trunc v f < 2^(w - sign)) vals /\
+  (f < w - sign -> exists v, In v vals /\ ~ (- 2^(w - sign - 1) <= scaled_trunc v f < 2^(w - sign - 1))).
+Proof.
+  intros sign Hne Hdom Hm0 Hmul H Hcap. unfold best_sizes in H. fold sign in H. cbn [bind] in H.
+  replace (nfr <? 0) with false in H by lia.
+  set (vmax := scaled_trunc (dy_max vals) nfr) in *. set (vmin := scaled_trunc (dy_min vals) nfr) in *.
+  destruct (int_loop 200 (wmax - sign) vmax vmin 0) as [ni0|] eqn:Eloop; [|discriminate].
+  injection H as Hw Hf.
+  destruct (int_loop_spec 200 (wmax - sign) vmax vmin 0 ni0 ltac:(lia) Eloop) as (Hni0 & Hfail & Hfit & _).
+  set (ni := Z.max (ni0 - nfr) 0) in *.
+  assert (Hnf: f = nfr) by lia. assert (Hww: w = nfr + ni + sign) by lia. clear Hw Hf. subst f.
+  assert (Hlt: ni0 < wmax - sign) by lia. specialize (Hfit Hlt).
+  split; [reflexivity|].
+  assert (HE: exists E, E <= - nfr /\ Forall (fun v => E <= de v) vals).
+  { exists (- nfr - 198). split; [lia|]. eapply Forall_impl; [|exact Hdom]. cbv beta. intros v H1. lia. }
+  destruct HE as (E & HEn & HEv).
+  destruct (dy_max_spec E vals Hne HEv) as (HinM & HallM). destruct (dy_min_spec E vals Hne HEv) as (Hinm & Hallm).
+  set (P := 2^(- nfr - E)). assert (HP: 0 < P) by (apply pow2_pos; lia).
+  assert (Hcode: forall v, In v vals -> sc E v = scaled_trunc v nfr * P).
+  { intros v Hv. rewrite Forall_forall in Hmul, HEv. apply code_sc; [apply Hmul; exact Hv | apply HEv; exact Hv | exact HEn]. }
+  assert (Hbetween: forall v, In v vals -> vmin <= scaled_trunc v nfr <= vmax).
+  { intros v Hv. rewrite Forall_forall in HallM, Hallm. specialize (HallM v Hv). specialize (Hallm v Hv).
+    rewrite (Hcode v Hv), (Hcode _ HinM) in HallM. rewrite (Hcode v Hv), (Hcode _ Hinm) in Hallm. fold vmax in HallM. fold vmin in Hallm. nia. }
+  unfold fits_int in Hfit. apply andb_true_iff in Hfit. destruct Hfit as (Hfit & F4). apply andb_true_iff in Hfit. destruct Hfit as (Hfit & F3).
+  apply andb_true_iff in Hfit. destruct Hfit as (F1 & F2).
+  replace (w - sign) with (nfr + ni) by lia.
+  assert (Hpow: 2^ni0 <= 2^(nfr + ni)) by (apply pow2_le; lia).
+  split; [lia|]. split.
+  - apply Forall_forall. intros v Hv. specialize (Hbetween v Hv). lia.
+  - intros Hpos. assert (Hni: ni = ni0 - nfr) by lia.
+    specialize (Hfail (ni0 - 1) ltac:(lia)). unfold fits_int in Hfail.
+    replace (nfr + ni - 1) with (ni0 - 1) by lia.
+    destruct ((- 2^(ni0 - 1) <=? vmax) && (vmax <? 2^(ni0 - 1))) eqn:EM.
+    + exists (dy_min vals). split; [exact Hinm|]. fold vmin. cbn [andb] in Hfail. lia.
+    + exists (dy_max vals). split; [exact HinM|]. fold vmax. lia.
+Qed.
+
+(* only n_word given (below the cap): the word is kept; the fraction length is the least exact one when the word has room for it
+   and the values then fit, otherwise it is what is left beside the least integer length that holds every exact value *)
+Theorem best_sizes_given_word (signed : bool) wmax vals w0 w f :
+  let sign := if signed then 1 else 0 in
+  vals <> [] -> Forall (fun v => - de v <= wmax - sign /\ - de v <= 198) vals ->
+  best_sizes signed (Some w0) None wmax vals = Ok (w, f) -> w0 < wmax ->
+  exists nfr,
+    (0 <= nfr /\ Forall (fun v => is_mult v nfr) vals /\ (forall j, 0 <= j < nfr -> exists v, In v vals /\ ~ is_mult v j)) /\
+    w = w0 /\ f <= nfr /\ f <= w - sign /\
+    (f = nfr -> Forall (fun v => - 2^(w - sign) <= scaled_trunc v f < 2^(w - sign)) vals) /\
+    (f < nfr -> f < w - sign ->
+       exists v, In v vals /\ ~ (- 2^(w - sign - f - 1 + nfr) <= scaled_trunc v nfr < 2^(w - sign - f - 1 + nfr))).
+Proof.
+  intros sign Hne Hdom H Hcap. unfold best_sizes in H. fold sign in H.
+  destruct (omapM (frac_bits (wmax - sign)) vals) as [ns|] eqn:Ens; [|discriminate]. cbn [bind] in H.
+  pose proof (omapM_Forall2 _ _ _ Ens) as HF2.
+  destruct (fold_zmax_spec ns) as (Hm0 & Hmall & Hmin). set (nfr := fold_right Z.max 0 ns) in *.
+  replace (nfr <? 0) with false in H by lia.
+  set (vmax := scaled_trunc (dy_max vals) nfr) in *. set (vmin := scaled_trunc (dy_min vals) nfr) in *.
+  destruct (int_loop 200 (wmax - sign) vmax vmin 0) as [ni0|] eqn:Eloop; [|discriminate].
+  injection H as Hw Hf.
+  destruct (int_loop_spec 200 (wmax - sign) vmax vmin 0 ni0 ltac:(lia) Eloop) as (Hni0 & Hfail & Hfit & _).
+  set (ni := Z.max (ni0 - nfr) 0) in *.
+  assert (Hmul: Forall (fun v => is_mult v nfr) vals).
+  { clear - HF2 Hmall Hdom. clearbody nfr. induction HF2 as [|v n vals ns Hv _ IH]; [constructor|].
+    pose proof (Forall_inv Hdom) as (Hd1 & Hd2). pose proof (Forall_inv Hmall) as Hn.
+    constructor; [|apply IH; [exact (Forall_inv_tail Hdom) | exact (Forall_inv_tail Hmall)]].
+    destruct (frac_bits_least (wmax - sign) v Hd1 Hd2) as (n' & Hn' & _ & Hm & _).
+    rewrite Hv in Hn'. injection Hn' as <-. apply (is_mult_mono v n nfr Hm Hn). }
+  exists nfr. split.
+  { split; [exact Hm0|]. split; [exact Hmul|].
+    intros j Hj. destruct Hmin as [Hz|Hin]; [lia|].
+    assert (Hex: exists v, In v vals /\ frac_bits (wmax - sign) v = Some nfr).
+    { clear - HF2 Hin. clearbody nfr. induction HF2 as [|v n vals ns Hv _ IH]; [destruct Hin|].
+      destruct Hin as [->|Hin]; [exists v; split; [left; reflexivity|exact Hv]|].
+      destruct (IH Hin) as (v' & Hi & Hv'). exists v'. split; [right; exact Hi|exact Hv']. }
+    destruct Hex as (v & Hiv & Hv). exists v. split; [exact Hiv|].
+    rewrite Forall_forall in Hdom. destruct (Hdom v Hiv) as (Hd1 & Hd2).
+    destruct (frac_bits_least (wmax - sign) v Hd1 Hd2) as (n' & Hn' & _ & _ & Hleast).
+    rewrite Hv in Hn'. injection Hn' as <-. apply Hleast. exact Hj. }
+  assert (HE: exists E, E <= - nfr /\ Forall (fun v => E <= de v) vals).
+  { exists (- nfr - 198 - Z.abs wmax). split; [lia|]. eapply Forall_impl; [|exact Hdom]. cbv beta. intros v (H1 & H2). lia. }
+  destruct HE as (E & HEn & HEv).
+  destruct (dy_max_spec E vals Hne HEv) as (HinM & HallM). destruct (dy_min_spec E vals Hne HEv) as (Hinm & Hallm).
+  set (P := 2^(- nfr - E)). assert (HP: 0 < P) by (apply pow2_pos; lia).
+  assert (Hcode: forall v, In v vals -> sc E v = scaled_trunc v nfr * P).
+  { intros v Hv. rewrite Forall_forall in Hmul, HEv. apply code_sc; [apply Hmul; exact Hv | apply HEv; exact Hv | exact HEn]. }
+  assert (Hbetween: forall v, In v vals -> vmin <= scaled_trunc v nfr <= vmax).
+  { intros v Hv. rewrite Forall_forall in HallM, Hallm. specialize (HallM v Hv). specialize (Hallm v Hv).
+    rewrite (Hcode v Hv), (Hcode _ HinM) in HallM. rewrite (Hcode v Hv), (Hcode _ Hinm) in Hallm. fold vmax in HallM. fold vmin in Hallm. nia. }
+  assert (Hww: w = w0) by lia. split; [exact Hww|]. split; [lia|]. split; [lia|]. split.
+  - intros Hfe. assert (Hlt: ni0 < wmax - sign) by lia. specialize (Hfit Hlt).
+    unfold fits_int in Hfit. apply andb_true_iff in Hfit. destruct Hfit as (Hfit & F4). apply andb_true_iff in Hfit. destruct Hfit as (Hfit & F3).
+    apply andb_true_iff in Hfit. destruct Hfit as (F1 & F2).
+    assert (Hpow: 2^ni0 <= 2^(w - sign)) by (apply pow2_le; lia).
+    rewrite Hfe. apply Forall_forall. intros v Hv. specialize (Hbetween v Hv). lia.
+  - intros Hlt Hroom. assert (Hni: ni = ni0 - nfr) by lia. assert (Hfv: f = w0 - sign - ni) by lia.
+    specialize (Hfail (ni0 - 1) ltac:(lia)). unfold fits_int in Hfail.
+    replace (w - sign - f - 1 + nfr) with (ni0 - 1) by lia.
+    destruct ((- 2^(ni0 - 1) <=? vmax) && (vmax <? 2^(ni0 - 1))) eqn:EM.
+    + exists (dy_min vals). split; [exact Hinm|]. fold vmin. cbn [andb] in Hfail. lia.
+    + exists (dy_max vals). split; [exact HinM|]. fold vmax. lia.
+Qed.
